@@ -116,8 +116,12 @@ func runC03(c *Ctx) {
 	}
 	c.Rule("C03.W", "writer types do not grow optional net/http interfaces", 4)
 	ruleWriterMethodSets(c, p, "C03.W")
-	c.Rule("C03.S", "status and body pass through the wrappers and the proxy unchanged; the backend-facing transport accepts any response", 16)
+	c.Rule("C03.S", "status and body pass through the wrappers and the proxy unchanged; the backend-facing transport accepts any response", 19)
 	ruleStatusBodyPassThrough(c, p, "C03.S")
+	// the stand-alone proxy copies the body to its client from the handler's own goroutine, with
+	// nothing else writing or flushing the ResponseWriter (= C01.K): a helper goroutine that
+	// flushes on a ticker, or copies, can still be inside the writer when the handler returns
+	c.Borrow(runC01, "C01.K", "C03.S", func(k string) bool { return k == "ServeHTTP:body-to-own-writer" })
 	ruleBodyStreamEndsCleanly(c, p, "C03.S")
 	ruleServerTrailersAfterBody(c, p, "C03.S")
 	ruleNoMutationOfHTTPDefaults(c, p, "C03.S")
@@ -752,7 +756,48 @@ func knownGuard(cond ssa.Value, fn *ssa.Function) bool {
 		return PathOf(x.X) == "*global:hopHeaders"
 	case *ssa.Call:
 		n := CalleeName(x.Common())
-		return strings.HasSuffix(n, "/server.isHopByHopHeader") || n == "strings.HasPrefix"
+		if strings.HasSuffix(n, "/server.isHopByHopHeader") || n == "strings.HasPrefix" {
+			return true
+		}
+		// a select moved into a new helper that reports which arm was taken: every return is a
+		// boolean constant reached under select-arm tests only
+		if h, ok := calleeFn(x.Call.Value); ok && IsNewHelper(h) && len(h.Blocks) > 0 {
+			okAll, nret := true, 0
+			for _, r := range Returns(h) {
+				if r.Parent() != h {
+					continue
+				}
+				nret++
+				if len(r.Results) != 1 {
+					okAll = false
+					continue
+				}
+				if cv, isC := r.Results[0].(*ssa.Const); !isC || cv.Value == nil || cv.Value.Kind() != constant.Bool {
+					okAll = false
+				}
+				for _, g := range GuardingIfs(r) {
+					if g.If.Parent() != h {
+						continue
+					}
+					gc, _ := BoolTest(g.If)
+					bo, isB := gc.(*ssa.BinOp)
+					if !isB {
+						okAll = false
+						continue
+					}
+					e, isE := bo.X.(*ssa.Extract)
+					if !isE {
+						okAll = false
+						continue
+					}
+					if _, isSel := e.Tuple.(*ssa.Select); !isSel || e.Index != 0 {
+						okAll = false
+					}
+				}
+			}
+			return okAll && nret > 0
+		}
+		return false
 	case *ssa.BinOp:
 		// range index < len
 		if ph, ok := x.X.(*ssa.BinOp); ok && strings.Contains(ph.X.Name(), "") {
